@@ -493,7 +493,42 @@ func (p *Program) sharedOwner(f *types.Var) bool {
 var pureLibraryPrefixes = []string{"regexp.Compile", "regexp.MustCompile", "regexp.QuoteMeta", "strings.", "strconv.", "path.", "mime.ParseMediaType", "net/url.Parse", "net/url.PathEscape", "net/url.QueryEscape", "unicode.", "unicode/utf8.", "bytes.", "sort.SearchStrings", "net/textproto.CanonicalMIMEHeaderKey", "net/http.CanonicalHeaderKey"}
 
 func (p *Program) pureMemoUpdate(mu *ssa.MapUpdate) bool {
-	key := strip(mu.Key)
+	return p.pureFunctionOf(mu.Key, mu.Value)
+}
+
+// pureSyncMap: m is a package-level sync.Map every Store/LoadOrStore of which, anywhere in the module, stores a
+// pure function of the key (a memo table: compiled expressions by their source). Nothing deletes from it.
+func (p *Program) pureSyncMap(m ssa.Value) bool {
+	g, ok := strip(m).(*ssa.Global)
+	if !ok {
+		return false
+	}
+	stores := 0
+	pure := true
+	for _, fn := range p.SrcFunc {
+		eachInstr(fn, func(i ssa.Instruction) {
+			cc := callCommon(i)
+			if cc == nil || len(cc.Args) == 0 || strip(cc.Args[0]) != ssa.Value(g) {
+				return
+			}
+			switch calleeName(cc) {
+			case "(*sync.Map).Store", "(*sync.Map).LoadOrStore":
+				stores++
+				if len(cc.Args) < 3 || !p.pureFunctionOf(cc.Args[1], cc.Args[2]) {
+					pure = false
+				}
+			case "(*sync.Map).Load", "(*sync.Map).Range":
+			default:
+				pure = false // Delete, Swap, CompareAndSwap ...: not a memo
+			}
+		})
+	}
+	return stores > 0 && pure
+}
+
+// pureFunctionOf: value is computed from key alone, by pure library functions.
+func (p *Program) pureFunctionOf(keyV, value ssa.Value) bool {
+	key := strip(keyV)
 	seen := map[ssa.Value]bool{}
 	ok := true
 	var visit func(x ssa.Value, depth int)
@@ -562,6 +597,6 @@ func (p *Program) pureMemoUpdate(mu *ssa.MapUpdate) bool {
 			ok = false
 		}
 	}
-	visit(mu.Value, 0)
+	visit(value, 0)
 	return ok
 }
